@@ -165,7 +165,10 @@ type c20Call struct {
 	Account string       `json:"account"`
 	// malformed variant: argument position BadPos replaced by a value of kind BadVal,
 	// or the argument list shortened/extended by Arity
-	BadPos int    `json:"bad_pos"` // -1: well-formed
+	// OddSecret > 0 (well-formed calls only): the secret text is altered in a way that JavaScript's and Go's notions of
+	// trimming and case mapping treat differently (see oddSecret); the native library's answer for that very text is the oracle
+	OddSecret int    `json:"odd_secret,omitempty"`
+	BadPos    int    `json:"bad_pos"` // -1: well-formed
 	BadVal string `json:"bad_val"`
 	Arity  int    `json:"arity"`
 }
@@ -268,6 +271,12 @@ func checkC20(c c20Case) verdict {
 			}
 		}
 		args := call.args(code)
+		if call.OddSecret > 0 && call.Fn != "generateOTPURL" {
+			secret = oddSecret(secret, call.OddSecret)
+			args[0] = secret
+			labels = append(labels, "odd-secret")
+			nt = true
+		}
 		labels = append(labels, "fn="+call.Fn)
 		malformed := call.BadPos >= 0 || call.Arity != 0
 		if malformed {
@@ -314,6 +323,39 @@ func checkC20(c c20Case) verdict {
 			continue
 		}
 		par := &otp.Param{Digits: otp.Digits(d), Algorithm: otp.Algorithm(a), Period: uint(call.Period), Skew: uint(call.Skew)}
+		if call.OddSecret > 0 && call.Fn != "generateOTPURL" {
+			// the native library's answer for this very text decides: a refusal must come back as an 'error:' string, a
+			// result as the same result (the reference does not model which odd texts the decoder accepts)
+			var nres any
+			var nerr error
+			switch call.Fn {
+			case "generateHOTP":
+				nres, nerr = otp.GenerateHOTP(secret, call.N, par)
+			case "generateTOTP":
+				nres, nerr = otp.GenerateTOTP(secret, time.Unix(int64(call.N), 0), par)
+			case "validateHOTP":
+				nres, nerr = otp.ValidateHOTP(secret, code, call.N, par)
+				if nres == false {
+					nerr = nil // a refused code is a verdict; a refused secret also reads false: both are false for the caller
+				}
+			case "validateTOTP":
+				nres, nerr = otp.ValidateTOTP(secret, code, time.Unix(int64(call.N), 0), par)
+				if nres == false {
+					nerr = nil
+				}
+			}
+			s, isStr := got.Value.(string)
+			isErr := got.Type == "string" && isStr && strings.HasPrefix(s, "error:")
+			switch {
+			case nerr != nil && !isErr:
+				return bad(true, labels, "call %d: %s with the secret text %q returned %v; the native library refuses this text (%v)", i, call.Fn, secret, got, nerr)
+			case nerr == nil && nres == false && (isErr || got.Value == false):
+				// false natively: the binding may say false or report the undecodable secret
+			case nerr == nil && (isErr || got.Value != nres):
+				return bad(true, labels, "call %d: %s with the secret text %q returned %v; the native library returns %v", i, call.Fn, secret, got, nres)
+			}
+			continue
+		}
 		switch call.Fn {
 		case "generateHOTP", "generateTOTP":
 			want := ref.MustHOTP(call.Key, centre, d, a)
@@ -432,6 +474,10 @@ func drawC20Call(t *rapid.T) c20Call {
 		c.Issuer = drawURLString(t, "iss", false)
 		c.Account = drawURLString(t, "acc", true)
 		// the secret is copied into the URL as given: any spelling (padded, lower case, surrounded by blanks)
+	}
+	if c.Fn != "generateOTPURL" && rapid.IntRange(0, 7).Draw(t, "oddSecretQ") == 0 {
+		c.OddSecret = rapid.IntRange(1, 40).Draw(t, "oddSecret")
+		return c
 	}
 	// malformed variants
 	if rapid.IntRange(0, 3).Draw(t, "malformed") == 0 {
@@ -601,4 +647,34 @@ func TestC20_ExportTable(t *testing.T) {
 		c20Names.each(t, c20NamesCase{Name: k})
 	}
 	c20Names.rec().Exhaustive()
+}
+
+
+// oddSecret alters a secret text where JavaScript and Go disagree about trimming or case mapping: String.prototype.trim
+// strips U+FEFF and not U+0085, strings.TrimSpace the reverse; toUpperCase maps one character to several (sharp s,
+// ligatures) and folds the long s and the dotless i to ASCII letters. A binding that "tidies" the secret in JavaScript
+// gives such texts a meaning the library does not.
+func oddSecret(secret string, k int) string {
+	wraps := []string{"\ufeff", "\u0085", "\u00a0", "\u2028", "\u3000", "\u200b", "\u180e", "\v", "\f", "\x00"}
+	folds := [][2]string{{"S", "\u017f"}, {"I", "\u0131"}, {"K", "\u212a"}, {"SS", "\u00df"}, {"ST", "\ufb06"}, {"ST", "\ufb05"}, {"FI", "\ufb01"}, {"FF", "\ufb00"}, {"FL", "\ufb02"}, {"I", "\u0130"},
+		{"A", "\uff21"}, {"2", "\uff12"}, {"A", "\u0410"}, {"O", "0"}, {"I", "1"}, {"B", "8"}}
+	k--
+	if k < 2*len(wraps) {
+		w := wraps[k/2]
+		if k%2 == 0 {
+			return w + secret
+		}
+		return secret + w
+	}
+	k -= 2 * len(wraps)
+	f := folds[k%len(folds)]
+	up := strings.ToUpper(secret)
+	if i := strings.Index(up, f[0]); i >= 0 {
+		return secret[:i] + f[1] + secret[i+len(f[0]):]
+	}
+	// the letters to fold do not occur: put the character in place of the first one / two letters
+	if len(secret) >= len(f[0]) {
+		return f[1] + secret[len(f[0]):]
+	}
+	return f[1]
 }
